@@ -18,6 +18,18 @@
 //! top-level nodes the row owns in mount order (the markers of inner lists and the placeholders of
 //! `()` / `None` count, and are reported as comments).
 //!
+//! In every mode above a step `(-1)` instead of a key list = `state.unmount(); state.mount(&parent, marker)` (the
+//! list is hidden and shown again), and after the last step the list is unmounted: the observation has one
+//! more entry than the case has steps.
+//!
+//! modes 4 / 5 (`(4|5 npre npost (l0 … ln))`, npre, npost <= 1 in mode 5) — rows are plain `<span>` / `<li>`
+//! elements (no wrapper: the log has only the `view_fn` and `set_index` calls):
+//! * 4: `keyed(items, |k| format!("k{k}"), view_fn).add_any_attr(class("row"))` — String keys, and the
+//!   `AddAnyAttr for Keyed` path (boxed view_fn; a row without the class is reported with `j + 100`);
+//! * 5: the list (between `<b>PRE0</b>` / `<b>POST0</b>` element siblings) is rendered to HTML, parsed into the
+//!   parent, HYDRATED (`RenderHtml::hydrate::<true>`: `KeyedState` made by hydration, marker found by the
+//!   cursor) and then rebuilt.
+//!
 //! observation: one entry per step `(children log)`:
 //! * children of the parent, each `(key gen j prev)`: `key` ≥ 0 list item (`gen` = number
 //!   of the `view_fn` call that built it, `j` = node index within the item), −1/−2 =
@@ -113,6 +125,147 @@ fn children(parent: &Element, before: &[u64]) -> Sexp {
         .collect())
 }
 
+thread_local! {
+    static PLOG: RefCell<Vec<Sexp>> = RefCell::new(vec![]);
+    static PGEN: RefCell<i64> = RefCell::new(0);
+}
+
+/// view_fn of the plain modes: logs to the thread-local log (the closure must be `Send`)
+fn plain_row<E>(el: fn() -> tachys::html::element::HtmlElement<E, (), ()>)
+    -> impl Fn(usize, i64) -> (Box<dyn Fn(usize)>, tachys::html::element::HtmlElement<E, (), (String,)>) + Send + Clone + 'static
+where
+    E: tachys::html::element::ElementType + 'static,
+    tachys::html::element::HtmlElement<E, (), ()>: ElementChild<String, Output = tachys::html::element::HtmlElement<E, (), (String,)>>,
+{
+    move |idx: usize, k: i64| {
+        let g = PGEN.with(|g| {
+            let v = *g.borrow();
+            *g.borrow_mut() += 1;
+            v
+        });
+        PLOG.with(|l| l.borrow_mut().push(Sexp::from_nums([3, k, g, idx as i64])));
+        let set_index: Box<dyn Fn(usize)> =
+            Box::new(move |i: usize| PLOG.with(|l| l.borrow_mut().push(Sexp::from_nums([0, k, g, i as i64]))));
+        (set_index, el().child(format!("{k}.{g}.0")))
+    }
+}
+
+fn take_plog() -> Sexp {
+    Lst(PLOG.with(|l| std::mem::take(&mut *l.borrow_mut())))
+}
+
+/// children of the parent; in the plain modes a row element without the class added by `add_any_attr`
+/// is reported with `j + 100`
+fn children_plain(parent: &Element, before: &[u64], want_class: bool) -> Sexp {
+    Lst(parent
+        .children()
+        .iter()
+        .map(|n| {
+            let (k, g, mut j) = label(n);
+            if want_class && k >= 0 && !n.classes().iter().any(|c| c == "row") {
+                j += 100;
+            }
+            let prev = before.iter().position(|b| *b == n.id()).map(|p| p as i64).unwrap_or(-1);
+            Sexp::from_nums([k, g, j, prev])
+        })
+        .collect())
+}
+
+fn steps_of(c: &Sexp) -> Vec<Vec<i64>> {
+    c.at(3).list().iter().map(|l| l.nums()).collect()
+}
+
+/// mode 4: String keys and `add_any_attr`
+fn go_add_attr(c: &Sexp) -> Sexp {
+    use tachys::view::add_attr::AddAnyAttr;
+    let (npre, npost) = (c.at(1).num() as usize, c.at(2).num() as usize);
+    let lists = steps_of(c);
+    PLOG.with(|l| l.borrow_mut().clear());
+    PGEN.with(|g| *g.borrow_mut() = 0);
+    let view = |items: Vec<i64>| {
+        keyed(items, |k: &i64| format!("k{k}"), plain_row(span)).add_any_attr(tachys::html::class::class("row"))
+    };
+    let (parent, marker) = parent_with_siblings(npre, npost);
+    let mut out = vec![];
+    let mut before = parent.child_ids();
+    let mut state = view(lists[0].clone()).build();
+    state.mount(&parent, marker.as_ref());
+    out.push(Lst(vec![children_plain(&parent, &before, true), take_plog()]));
+    for l in &lists[1..] {
+        before = parent.child_ids();
+        if l == &[-1] {
+            state.unmount();
+            state.mount(&parent, marker.as_ref());
+        } else {
+            view(l.clone()).rebuild(&mut state);
+        }
+        out.push(Lst(vec![children_plain(&parent, &before, true), take_plog()]));
+    }
+    before = parent.child_ids();
+    state.unmount();
+    out.push(Lst(vec![children_plain(&parent, &before, true), take_plog()]));
+    Lst(out)
+}
+
+/// mode 5: render to HTML, hydrate, then rebuild
+fn go_hydrate(c: &Sexp) -> Sexp {
+    use tachys::{
+        html::element::{b, li},
+        hydration::Cursor,
+        renderer::dom::Dom,
+        view::{PositionState, RenderHtml},
+    };
+    crate::util::install_parser();
+    let (npre, npost) = (c.at(1).num().min(1) as usize, c.at(2).num().min(1) as usize);
+    let lists = steps_of(c);
+    let list_view = |items: Vec<i64>| keyed(items, |k: &i64| *k, plain_row(li));
+    let parent = Dom::create_element("div", None);
+    let mut out = vec![];
+    macro_rules! run {
+        ($view:expr, $s:ident => $k:expr) => {{
+            let view = $view;
+            PGEN.with(|g| *g.borrow_mut() = 0);
+            let html = view(lists[0].clone()).to_html();
+            Dom::set_inner_html(&parent, &html);
+            PLOG.with(|l| l.borrow_mut().clear());
+            PGEN.with(|g| *g.borrow_mut() = 0);
+            // the siblings existed "before"; the rows are what the (server-rendered) list added
+            let sibs: Vec<u64> = parent.children().iter().filter(|n| label(n).0 < 0 && n.kind() != Kind::Comment).map(|n| n.id()).collect();
+            let marker: Option<Node> = parent.children().into_iter().find(|n| label(n).0 == -2);
+            let mut state = view(lists[0].clone()).hydrate::<true>(&Cursor::new(parent.clone()), &PositionState::default());
+            out.push(Lst(vec![children_plain(&parent, &sibs, false), take_plog()]));
+            for l in &lists[1..] {
+                let before = parent.child_ids();
+                if l == &[-1] {
+                    let $s = &mut state;
+                    let k = $k;
+                    k.unmount();
+                    k.mount(&parent, marker.as_ref());
+                } else {
+                    view(l.clone()).rebuild(&mut state);
+                }
+                out.push(Lst(vec![children_plain(&parent, &before, false), take_plog()]));
+            }
+            let before = parent.child_ids();
+            {
+                let $s = &mut state;
+                let k = $k;
+                k.unmount();
+            }
+            out.push(Lst(vec![children_plain(&parent, &before, false), take_plog()]));
+        }};
+    }
+    let pre = || b().child("PRE0");
+    let post = || b().child("POST0");
+    match (npre, npost) {
+        (0, 0) => run!(|l: Vec<i64>| (list_view(l),), s => s),
+        (1, 0) => run!(|l: Vec<i64>| (pre(), list_view(l)), s => &mut s.1),
+        (0, 1) => run!(|l: Vec<i64>| (list_view(l), post()), s => &mut s.0),
+        _ => run!(|l: Vec<i64>| (pre(), list_view(l), post()), s => &mut s.1),
+    }
+    Lst(out)
+}
+
 fn go<V: Render>(c: &Sexp, mk: impl Fn(i64, i64) -> V + Copy) -> Sexp {
     let (npre, npost) = (c.at(1).num() as usize, c.at(2).num() as usize);
     let lists: Vec<Vec<i64>> = c.at(3).list().iter().map(|l| l.nums()).collect();
@@ -143,9 +296,18 @@ fn go<V: Render>(c: &Sexp, mk: impl Fn(i64, i64) -> V + Copy) -> Sexp {
     out.push(Lst(vec![children(&parent, &before), Lst(std::mem::take(&mut *log.borrow_mut()))]));
     for l in &lists[1..] {
         before = parent.child_ids();
-        view(l.clone()).rebuild(&mut state);
+        if l == &[-1] {
+            // hidden and shown again
+            state.unmount();
+            state.mount(&parent, marker.as_ref());
+        } else {
+            view(l.clone()).rebuild(&mut state);
+        }
         out.push(Lst(vec![children(&parent, &before), Lst(std::mem::take(&mut *log.borrow_mut()))]));
     }
+    before = parent.child_ids();
+    state.unmount();
+    out.push(Lst(vec![children(&parent, &before), Lst(std::mem::take(&mut *log.borrow_mut()))]));
     Lst(out)
 }
 
@@ -274,6 +436,8 @@ pub fn run(c: &Sexp) -> Sexp {
     match c.at(0).num() {
         11 | 12 | 13 => crate::c11for::run(c),
         14 => crate::c11store::run(c),
+        4 => go_add_attr(c),
+        5 => go_hydrate(c),
         20 => {
             let shapes = c.at(4).list();
             go(c, |k, g| shaped(&shapes[k as usize % shapes.len()], k, g, &mut 0))
